@@ -2,6 +2,7 @@ package zzverifc20
 
 import (
 	"bytes"
+	"fmt"
 
 	"google.golang.org/protobuf/proto"
 
@@ -16,5 +17,7 @@ func VerifC20_Probe() {
 	b1, err1 := g.Marshal()
 	b2, err2 := proto.MarshalOptions{AllowPartial: true}.Marshal(p)
 	verifAssert(err1 == nil && err2 == nil, "both families marshal")
+	verifPrint(fmt.Sprintf("len1=%d len2=%d", len(b1), len(b2)))
+	verifAssert(len(b1) == len(b2), "same length")
 	verifAssert(bytes.Equal(b1, b2), "same bytes")
 }
